@@ -8,6 +8,7 @@ import (
 	"strings"
 
 	"golang.org/x/tools/go/packages"
+	"golang.org/x/tools/go/types/typeutil"
 
 	"utilverif/internal/core"
 )
@@ -64,6 +65,7 @@ type r1 struct {
 	// per context: accessed vars (for the R1d second pass)
 	ctxVars   map[*r1Context]map[*types.Var]bool
 	nContexts int
+	freshFn   map[*core.FuncDecl]bool
 	// captured-by-escaping-literal locals, global
 	capturedBy map[*types.Var][]*ast.FuncLit
 	escOf      map[*ast.FuncLit]core.LitEscape
@@ -118,7 +120,7 @@ func runR1(c *Ctx) {
 	r := &r1{c: c, seen: map[string]bool{}, accesses: map[*types.Var][]*r1Access{},
 		fieldCalls: map[*types.Var][]r1FieldCall{}, fieldLits: map[*types.Var]map[*ast.FuncLit]*r1Context{},
 		edges: map[[2]*types.Var]token.Pos{}, hygiene: map[string]*Obligation{},
-		ctxVars: map[*r1Context]map[*types.Var]bool{}, capturedBy: map[*types.Var][]*ast.FuncLit{}, escOf: map[*ast.FuncLit]core.LitEscape{}}
+		freshFn: map[*core.FuncDecl]bool{}, ctxVars: map[*r1Context]map[*types.Var]bool{}, capturedBy: map[*types.Var][]*ast.FuncLit{}, escOf: map[*ast.FuncLit]core.LitEscape{}}
 	// escape information for all functions in scope
 	for _, d := range c.declsInScope() {
 		ei := core.EscapesOf(c.Prog, d)
@@ -278,7 +280,7 @@ func (r *r1) walkContext(x *r1Context) {
 					continue
 				}
 				if v := identVar(ev.Lhs, ev.Frame); v != nil && !v.IsField() {
-					fresh[v] = ev.Rhs != nil && ev.RhsIdx < 0 && isFreshExpr(ev.Rhs, info)
+					fresh[v] = ev.Rhs != nil && ev.RhsIdx < 0 && r.isFresh(ev.Rhs, info)
 					created[v] = fresh[v]
 				} else if ev.Var != nil && ev.Var.IsField() {
 					if ev.Val.Kind == core.VFuncLit {
@@ -650,4 +652,89 @@ func (r *r1) constBinds(ft *ast.FuncType, _ *ast.FieldList, info *types.Info, ca
 		}
 	}
 	return out
+}
+
+// isFresh: a composite literal, new(T), or a call of a module function that returns a freshly
+// constructed object on every path (NewPromise, newRunningRoutine …).
+func (r *r1) isFresh(e ast.Expr, info *types.Info) bool {
+	if isFreshExpr(e, info) {
+		return true
+	}
+	call, ok := unparen(e).(*ast.CallExpr)
+	if !ok {
+		return false
+	}
+	f, _ := typeutil.Callee(info, call).(*types.Func)
+	return r.returnsFresh(r.c.Prog.Decl(f), 0)
+}
+
+func (r *r1) returnsFresh(d *core.FuncDecl, depth int) bool {
+	if d == nil || depth > 3 {
+		return false
+	}
+	if v, ok := r.freshFn[d]; ok {
+		return v
+	}
+	info := d.Pkg.TypesInfo
+	// locals that only ever hold fresh objects
+	freshLocal := func(v *types.Var) bool {
+		ok, any := true, false
+		ast.Inspect(d.Decl.Body, func(n ast.Node) bool {
+			as, isAs := n.(*ast.AssignStmt)
+			if !isAs || len(as.Lhs) != len(as.Rhs) {
+				return true
+			}
+			for i, l := range as.Lhs {
+				if id, isId := unparen(l).(*ast.Ident); isId && (info.Defs[id] == types.Object(v) || info.Uses[id] == types.Object(v)) {
+					any = true
+					if !isFreshExpr(as.Rhs[i], info) {
+						if c2, isCall := unparen(as.Rhs[i]).(*ast.CallExpr); isCall {
+							f2, _ := typeutil.Callee(info, c2).(*types.Func)
+							if r.returnsFresh(r.c.Prog.Decl(f2), depth+1) {
+								continue
+							}
+						}
+						ok = false
+					}
+				}
+			}
+			return true
+		})
+		return ok && any
+	}
+	res, anyRet := true, false
+	var visit func(n ast.Node) bool
+	visit = func(n ast.Node) bool {
+		switch x := n.(type) {
+		case *ast.FuncLit:
+			return false
+		case *ast.ReturnStmt:
+			anyRet = true
+			if len(x.Results) == 0 {
+				res = false
+				return true
+			}
+			e := x.Results[0]
+			switch {
+			case isFreshExpr(e, info):
+			default:
+				if id, ok := unparen(e).(*ast.Ident); ok {
+					if v, ok := info.Uses[id].(*types.Var); ok && freshLocal(v) {
+						break
+					}
+				}
+				if c2, ok := unparen(e).(*ast.CallExpr); ok {
+					f2, _ := typeutil.Callee(info, c2).(*types.Func)
+					if r.returnsFresh(r.c.Prog.Decl(f2), depth+1) {
+						break
+					}
+				}
+				res = false
+			}
+		}
+		return true
+	}
+	ast.Inspect(d.Decl.Body, visit)
+	r.freshFn[d] = res && anyRet
+	return res && anyRet
 }
